@@ -343,3 +343,70 @@ def cell_mutation_rule(model: Model, res, rule: str = "R-INPUT"):
     res.units["functions_mutating_a_parameter"] = len(mutating)
     res.units["mutation_sites_examined"] = n_sites
     return mutating, len(findings)
+
+
+# ------------------------------------------------------------------------------------------ objects shared by iterations
+def loop_sharing_rule(model: Model, res, rule: str = "R-SHARE", scope=("demeter/core/", "demeter/broker/")):
+    """An object constructed BEFORE a loop and handed inside the loop to a callee that keeps it (stores the parameter in an
+    attribute / container) or writes its fields is one object shared by all iterations: in the bar loop that means one
+    status object for every market, one record for every position.  Value numbering cannot see this (the constructed value
+    is the same term inside and outside the loop); it is an identity fact.  Reported at the call site."""
+    funcs = [f for f in model.all_functions() if not f.module.relpath.startswith(EXCLUDED)]
+    by_name: Dict[str, List[FuncInfo]] = {}
+    for f in funcs:
+        by_name.setdefault(f.name, []).append(f)
+
+    def keeps_or_writes(g: FuncInfo, p: str) -> Optional[str]:
+        for s in ast.walk(g.node):
+            tgts = s.targets if isinstance(s, ast.Assign) else ([s.target] if isinstance(s, (ast.AugAssign, ast.AnnAssign)) else [])
+            for t in tgts:
+                if isinstance(t, ast.Attribute) and isinstance(t.value, ast.Name) and t.value.id == p:
+                    return f"writes `{ast.unparse(t)}`"
+                if isinstance(s, ast.Assign) and isinstance(s.value, ast.Name) and s.value.id == p and isinstance(t, (ast.Attribute, ast.Subscript)) \
+                        and not (isinstance(t.value, ast.Name) and t.value.id == p):
+                    return f"keeps it in `{ast.unparse(t)}`"
+        return None
+
+    n = 0
+    for f in funcs:
+        if scope and not f.module.relpath.startswith(tuple(scope)):
+            continue
+        loops = [x for x in ast.walk(f.node) if isinstance(x, (ast.For, ast.While))]
+        if not loops:
+            continue
+        fa = FuncAliases(f)
+        for loop in loops:
+            inside = {id(x) for x in ast.walk(loop)}
+            stored_inside = {t.id for x in ast.walk(loop) for t in ast.walk(x)
+                             if isinstance(t, ast.Name) and isinstance(t.ctx, ast.Store)}
+            for c in ast.walk(loop):
+                if not isinstance(c, ast.Call):
+                    continue
+                fn = c.func
+                nm = fn.attr if isinstance(fn, ast.Attribute) else (fn.id if isinstance(fn, ast.Name) else None)
+                cands = by_name.get(nm, [])[:8] if nm else []
+                if not cands:
+                    continue
+                for i, a in enumerate(c.args):
+                    if not isinstance(a, ast.Name) or a.id in stored_inside or a.id in f.params:
+                        continue
+                    defs = [d for d in fa.defs.get(a.id, []) if d[0] == "val" and d[2] < loop.lineno and id(d[1]) not in inside]
+                    if not defs or not all(isinstance(d[1], ast.Call) and isinstance(d[1].func, ast.Name) and d[1].func.id[:1].isupper() for d in defs):
+                        continue        # only objects constructed by a class call before the loop
+                    n += 1
+                    why = None
+                    for g in cands:
+                        params = g.params[1:] if g.is_method else list(g.params)
+                        if i < len(params):
+                            why = keeps_or_writes(g, params[i])
+                            if why:
+                                why = f"{g.qualname} {why}"
+                                break
+                    res.ob(rule, f"{f.qualname}: `{a.id}` (constructed before the loop) passed to {nm}() inside the loop is not kept or "
+                                 f"written by the callee", f.loc(c), ok=why is None)
+                    if why:
+                        res.find(rule, f.qualname, f"`{a.id}` constructed once, passed to {nm}() per iteration", f.loc(c),
+                                 f"{f.qualname}: `{a.id} = {ast.unparse(defs[0][1])[:50]}` is constructed once before the loop and passed to "
+                                 f"`{nm}` in every iteration, but {why}: all iterations (markets / positions) share ONE object, and what "
+                                 f"one of them writes into it the next one reads")
+    return n
